@@ -24,7 +24,12 @@ TRUSTED_BASE = [
 ASSUMPTIONS = [
     "events reach syncUpstreamCluster one at a time (the controller runs one worker) and the lister already "
     "contains the event's object (informer order)",
-    "admission sees the same store as the controller (no admission race): stored objects are pairwise name-disjoint",
+    "theorems: admission sees the same store as the controller, so stored objects are pairwise name-disjoint; the "
+    "executable spec also judges histories with admission races (a field-valid object that collides with another "
+    "cluster's name reaches the store, is rejected by the controller and requeued): it judges a step when the stored "
+    "objects are field-valid and pairwise disjoint again and every stored cluster has had a successful event since "
+    "its current version was stored - 'current server names' are those of the latest STORED version, never of the "
+    "object an event happened to carry (this part is checked on the real code only, not proved)",
     "names and aliases are ASCII; IP-literal hosts are outside the property (the gateway never proxies them)",
     "a request is addressed to its Host header; the SNI of the connection it arrives on selects TLS material only",
     "objects that validation refuses (un-creatable endpoint, unknown gate, key/cert mismatch, unparsable CA, insecure+CA) "
